@@ -64,6 +64,14 @@ struct World {
 	TMCG_SecretKey *skA = nullptr, *skB = nullptr; TMCG_PublicKeyRing *ring = nullptr;
 	size_t qr_w = 3; unsigned long rabin_bits = 512;
 	Rng rng;
+	// ---- additive (C05): verifier views with altered but self-consistent verifier-side objects
+	Rng rng_vkey;            // state of `rng` right before vV generated its key share (a fresh instance fed from a copy gets the same share)
+	bool view = false;       // a view borrows every object of another World (owns nothing); the caller replaces verifier-side pointers
+	std::function<std::string(const char *what, const std::string &group_text)> thook;   // edits the published group text a factory-local verifier object is built from
+	std::function<void(const char *what, void *verifier_obj)> ohook;                        // called on a factory-local verifier object right after its construction
+	struct ViewTag {};
+	World(const World &b, ViewTag) : ps(b.ps), vkind(b.vkind), vP(b.vP), vV(b.vV), group_text(b.group_text), vsshe(b.vsshe), rP(b.rP), rV(b.rV), eP(b.eP), eV(b.eV),
+		skA(b.skA), skB(b.skB), ring(b.ring), qr_w(b.qr_w), rabin_bits(b.rabin_bits), rng(b.rng), rng_vkey(b.rng_vkey), view(true) {}
 	BarnettSmartVTMF_dlog *fresh_vtmf() const {
 		std::stringstream in(group_text);
 		if (vkind == 2) return new BarnettSmartVTMF_dlog_GroupQR(in, ps.fs, ps.gs);
@@ -74,7 +82,7 @@ struct World {
 		if (vkind == 2) vP = new BarnettSmartVTMF_dlog_GroupQR(ps.fs, ps.gs); else vP = new BarnettSmartVTMF_dlog(ps.fs, ps.gs, vkind == 1, true);
 		std::stringstream g; vP->PublishGroup(g); group_text = g.str();
 		vV = fresh_vtmf();
-		vP->KeyGenerationProtocol_GenerateKey(); vV->KeyGenerationProtocol_GenerateKey();
+		vP->KeyGenerationProtocol_GenerateKey(); rng_vkey = rng; vV->KeyGenerationProtocol_GenerateKey();
 		{ std::stringstream k; vP->KeyGenerationProtocol_PublishKey(k); if (!vV->KeyGenerationProtocol_UpdateKey(k)) throw std::runtime_error("world: UpdateKey P->V refused"); }
 		{ std::stringstream k; vV->KeyGenerationProtocol_PublishKey(k); if (!vP->KeyGenerationProtocol_UpdateKey(k)) throw std::runtime_error("world: UpdateKey V->P refused"); }
 		vP->KeyGenerationProtocol_Finalize(); vV->KeyGenerationProtocol_Finalize();
@@ -99,7 +107,7 @@ struct World {
 	void need_rabin() { if (skA) return; Rng *old = tl_rng; tl_rng = &rng;
 		skA = new TMCG_SecretKey("Alice", "a@x", rabin_bits, false); skB = new TMCG_SecretKey("Bob", "b@x", rabin_bits + 64, false);
 		ring = new TMCG_PublicKeyRing(2); ring->keys[0] = TMCG_PublicKey(*skA); ring->keys[1] = TMCG_PublicKey(*skB); tl_rng = old; }
-	~World() { for (auto &kv : vsshe) { delete kv.second.first; delete kv.second.second; } delete rP; delete rV; delete eP; delete eV; delete vP; delete vV; delete skA; delete skB; delete ring; }
+	~World() { if (view) return; for (auto &kv : vsshe) { delete kv.second.first; delete kv.second.second; } delete rP; delete rV; delete eP; delete eV; delete vP; delete vV; delete skA; delete skB; delete ring; }
 };
 
 // ------------------------------------------------------------------ run
@@ -305,7 +313,8 @@ inline std::vector<Factory> build_registry() {
 		// GrothSKC owns its commitment group: prover generates, verifier imports the published group
 		Rng *old = tl_rng; tl_rng = &W.rng;
 		auto P = std::shared_ptr<GrothSKC>(new GrothSKC(n, W.ps.le, W.ps.fs, W.ps.gs)); std::stringstream g; P->PublishGroup(g);
-		auto V = std::shared_ptr<GrothSKC>(new GrothSKC(n, g, W.ps.le, W.ps.fs, W.ps.gs)); tl_rng = old;
+		if (W.thook) g.str(W.thook("skc", g.str()));
+		auto V = std::shared_ptr<GrothSKC>(new GrothSKC(n, g, W.ps.le, W.ps.fs, W.ps.gs)); if (W.ohook) W.ohook("skc", V.get()); tl_rng = old;
 		I->keep.push_back(P); I->keep.push_back(V);
 		mpz_set(I->p, P->com->p); mpz_set(I->q, P->com->q);
 		auto z = std::make_shared<ZV>(2); auto m = std::make_shared<ZV>(n), mpi = std::make_shared<ZV>(n); I->keep.push_back(z); I->keep.push_back(m); I->keep.push_back(mpi);
@@ -349,7 +358,8 @@ inline std::vector<Factory> build_registry() {
 		Instance *I = new Instance; I->proto = "pedersen/commit"; I->n = n;
 		Rng *old = tl_rng; tl_rng = &W.rng;
 		auto P = std::shared_ptr<PedersenCommitmentScheme>(new PedersenCommitmentScheme(n, W.ps.fs, W.ps.gs)); std::stringstream g; P->PublishGroup(g);
-		auto V = std::shared_ptr<PedersenCommitmentScheme>(new PedersenCommitmentScheme(n, g, W.ps.fs, W.ps.gs)); tl_rng = old;
+		if (W.thook) g.str(W.thook("pedersen", g.str()));
+		auto V = std::shared_ptr<PedersenCommitmentScheme>(new PedersenCommitmentScheme(n, g, W.ps.fs, W.ps.gs)); if (W.ohook) W.ohook("pedersen", V.get()); tl_rng = old;
 		I->keep.push_back(P); I->keep.push_back(V); mpz_set(I->p, P->p); mpz_set(I->q, P->q);
 		auto m = std::make_shared<ZV>(n); I->keep.push_back(m); for (size_t i = 0; i < n; i++) { tmcg_mpz_srandomm(m->v[i], P->q); I->addpub("m[" + std::to_string(i) + "]", m->v[i], "exp"); }
 		(void)rg;
@@ -360,7 +370,8 @@ inline std::vector<Factory> build_registry() {
 		Instance *I = new Instance; I->proto = "pedersen/trapdoor-commit";
 		Rng *old = tl_rng; tl_rng = &W.rng;
 		auto P = std::shared_ptr<PedersenTrapdoorCommitmentScheme>(new PedersenTrapdoorCommitmentScheme(W.ps.fs, W.ps.gs)); std::stringstream g; P->PublishGroup(g);
-		auto V = std::shared_ptr<PedersenTrapdoorCommitmentScheme>(new PedersenTrapdoorCommitmentScheme(g, W.ps.fs, W.ps.gs)); tl_rng = old;
+		if (W.thook) g.str(W.thook("trapdoor", g.str()));
+		auto V = std::shared_ptr<PedersenTrapdoorCommitmentScheme>(new PedersenTrapdoorCommitmentScheme(g, W.ps.fs, W.ps.gs)); if (W.ohook) W.ohook("trapdoor", V.get()); tl_rng = old;
 		I->keep.push_back(P); I->keep.push_back(V); mpz_set(I->p, P->p); mpz_set(I->q, P->q);
 		auto m = std::make_shared<ZV>(1); I->keep.push_back(m); tmcg_mpz_srandomm(m->v[0], P->q); I->addpub("m", m->v[0], "exp");
 		I->prove = [P, m](std::istream &, std::ostream &out) { mpz_t c, r; mpz_init(c); mpz_init(r); P->Commit(c, r, m->v[0]); out << c << std::endl << r << std::endl; mpz_clear(c); mpz_clear(r); };
